@@ -106,6 +106,25 @@ func Unnest(a Set, attr string) (Set, error) {
 	if !key.Has(attr) {
 		return nil, fmt.Errorf("unnest attr %q not found in relation (%v)", attr, key)
 	}
+	for e := a.Enumerator(); e.MoveNext(); {
+		t := e.Current().(Tuple)
+		s, _ := t.Get(attr)
+		nested, is := s.(Set)
+		if !is {
+			return nil, fmt.Errorf("unnest attr %q must hold a relation, not %s", attr, ValueTypeAsString(s))
+		}
+		t = t.Without(attr)
+		for i := nested.Enumerator(); i.MoveNext(); {
+			u, is := i.Current().(Tuple)
+			if !is {
+				return nil, fmt.Errorf("unnest attr %q must hold a relation, not a set with %s",
+					attr, ValueTypeAsString(i.Current()))
+			}
+			if Merge(t, u) == nil {
+				return nil, fmt.Errorf("unnest attr %q: nested tuple %v clashes with %v", attr, u, t)
+			}
+		}
+	}
 	return Reduce(
 		a,
 		func(value Value) Value {
